@@ -580,11 +580,176 @@ class _N8(ast.NodeTransformer):
         return node
 
 
-def normalise(tree: ast.Module) -> int:
+# ------------------------------------------------------------------------------------------------
+# N9  a private *parameter object* is taken apart again
+#
+#       def _f(self, ttl, batch: _Batch): ...          def _f(self, ttl, batch__remote, batch__groups):
+#           use(batch.remote)                               batch = _Batch(batch__remote, batch__groups)
+#                                                           use(batch.remote)
+#       self._f(3, _Batch(r, g))                        self._f(3, r, g)
+#       self._f(3, b)                                   self._f(3, b.remote, b.groups)
+#       loop.call_soon(self._f, 3, b)                   loop.call_soon(self._f, 3, b.remote, b.groups)
+#
+#     "Introduce parameter object" moves several parameters of private functions into one small value class.  The rules
+#     address parameters of the functions they were written against by position; with the object taken apart the fields
+#     stand where the parameters stood (provided the fields are declared in the order the parameters had - otherwise the
+#     rules that depend on it report what they see, or cannot decide).  Side conditions: the class is defined in this
+#     module, is not part of the baseline, is a frozen dataclass or a NamedTuple whose fields have no defaults and that
+#     defines no __init__ / __post_init__ / __new__; the function is private, its name is unique in the module, the
+#     parameter is annotated with exactly that class; every reference to the function in the module is a call (or a value
+#     position of call_soon / call_later / call_at / partial / create_task-free scheduling) whose corresponding argument is
+#     a constructor call of the class with all fields given, or a plain name.  Otherwise nothing is rewritten.
+def _param_object_classes(tree, baseline_classes, short):
+    out = {}
+    for st in tree.body:
+        if not isinstance(st, ast.ClassDef) or f"{short}.{st.name}" in baseline_classes:
+            continue
+        decs = [ast.unparse(d) for d in st.decorator_list]
+        frozen_dc = any(d.split("(")[0].split(".")[-1] == "dataclass" and "frozen=True" in d.replace(" ", "") for d in decs)
+        nt = any(ast.unparse(b).split(".")[-1] == "NamedTuple" for b in st.bases)
+        if not (frozen_dc or nt):
+            continue
+        if any(isinstance(x, ast.FunctionDef) and x.name in ("__init__", "__post_init__", "__new__") for x in st.body):
+            continue
+        fields, ok = [], True
+        for x in st.body:
+            if isinstance(x, ast.AnnAssign) and isinstance(x.target, ast.Name):
+                if "ClassVar" in ast.unparse(x.annotation):
+                    continue
+                if x.value is not None:
+                    ok = False
+                fields.append(x.target.id)
+                _FIELD_ANN[(st.name, x.target.id)] = x.annotation
+        bases = [ast.unparse(b).split("[")[0].split(".")[-1] for b in st.bases]
+        inherited = []
+        for b in bases:
+            if b in ("NamedTuple", "Generic", "object"):
+                continue
+            if b in out and frozen_dc:
+                inherited += out[b]  # dataclass inheritance: the base's fields come first
+                for f_ in out[b]:
+                    _FIELD_ANN[(st.name, f_)] = _FIELD_ANN.get((b, f_))
+            else:
+                ok = False
+        if ok and (inherited + fields):
+            out[st.name] = inherited + fields
+    return out
+
+
+_FIELD_ANN: t.Dict[t.Tuple[str, str], ast.AST] = {}
+
+
+_SCHEDULERS = {"call_soon": 0, "call_soon_threadsafe": 0, "call_later": 1, "call_at": 1, "partial": 0}
+
+
+def _take_apart_parameter_objects(tree, baseline_classes, short) -> int:
+    classes = _param_object_classes(tree, baseline_classes, short)
+    if not classes:
+        return 0
+    defs = {}
+    for n in ast.walk(tree):
+        if isinstance(n, (ast.FunctionDef, ast.AsyncFunctionDef)):
+            defs.setdefault(n.name, []).append(n)
+    parents = {}
+    for n in ast.walk(tree):
+        for c in ast.iter_child_nodes(n):
+            parents[c] = n
+    count = 0
+    for name, fns in sorted(defs.items()):
+        if len(fns) != 1 or not name.startswith("_") or name.startswith("__"):
+            continue
+        fn = fns[0]
+        a = fn.args
+        if a.vararg or a.kwarg or a.posonlyargs:
+            continue
+        params = [x.arg for x in a.args]
+        is_method = isinstance(parents.get(fn), ast.ClassDef) and not any(
+            ast.unparse(d).split(".")[-1] == "staticmethod" for d in fn.decorator_list)
+        hits = [(i, x) for i, x in enumerate(a.args) if x.annotation is not None and
+                ast.unparse(x.annotation).strip("'\"").split(".")[-1] in classes]
+        if len(hits) != 1:
+            continue
+        pi, parg = hits[0]
+        n_def = len(a.defaults)
+        if pi >= len(a.args) - n_def:
+            continue  # the parameter has a default
+        cname = ast.unparse(parg.annotation).strip("'\"").split(".")[-1]
+        fields = classes[cname]
+        call_index = pi - (1 if is_method else 0)
+        # ---- all references
+        plan, ok = [], True
+        for n in ast.walk(tree):
+            ref = (isinstance(n, ast.Attribute) and n.attr == name) or (isinstance(n, ast.Name) and n.id == name and isinstance(n.ctx, ast.Load))
+            if not ref:
+                continue
+            par = parents.get(n)
+            if isinstance(par, ast.Call) and par.func is n:
+                call, off = par, 0
+            elif isinstance(par, ast.Call) and n in par.args and isinstance(par.func, (ast.Attribute, ast.Name)):
+                sched = par.func.attr if isinstance(par.func, ast.Attribute) else par.func.id
+                if sched not in _SCHEDULERS or par.args.index(n) != _SCHEDULERS[sched]:
+                    ok = False
+                    break
+                call, off = par, par.args.index(n) + 1
+            else:
+                ok = False
+                break
+            if any(isinstance(x, ast.Starred) for x in call.args) or any(k.arg is None for k in call.keywords):
+                ok = False
+                break
+            pos = off + call_index
+            if pos < len(call.args):
+                E, where = call.args[pos], ("pos", pos)
+            else:
+                kws = [k for k in call.keywords if k.arg == parg.arg]
+                if len(kws) != 1 or off:
+                    ok = False
+                    break
+                E, where = kws[0].value, ("kw", kws[0])
+            if isinstance(E, ast.Call) and ast.unparse(E.func).split(".")[-1] == cname and not any(isinstance(x, ast.Starred) for x in E.args) \
+                    and all(k.arg in fields for k in E.keywords) and len(E.args) + len(E.keywords) == len(fields):
+                given = dict(zip(fields, E.args))
+                given.update({k.arg: k.value for k in E.keywords})
+                if set(given) != set(fields):
+                    ok = False
+                    break
+                parts = [given[f] for f in fields]
+            elif isinstance(E, ast.Name):
+                parts = [ast.Attribute(value=ast.Name(id=E.id, ctx=ast.Load()), attr=f, ctx=ast.Load()) for f in fields]
+            else:
+                ok = False
+                break
+            plan.append((call, where, parts))
+        if not ok or not plan:
+            continue
+        # ---- rewrite the call sites
+        for call, where, parts in plan:
+            if where[0] == "pos":
+                call.args[where[1]:where[1] + 1] = parts
+            else:
+                call.keywords.remove(where[1])
+                call.keywords.extend(ast.keyword(arg=f"{parg.arg}__{f}", value=v) for f, v in zip(fields, parts))
+        # ---- and the definition
+        import copy as _copy
+        newargs = [ast.arg(arg=f"{parg.arg}__{f}", annotation=_copy.deepcopy(_FIELD_ANN.get((cname, f)))) for f in fields]
+        a.args[pi:pi + 1] = newargs
+        ctor = ast.Call(func=ast.Name(id=cname, ctx=ast.Load()), args=[ast.Name(id=x.arg, ctx=ast.Load()) for x in newargs], keywords=[])
+        pro = ast.Assign(targets=[ast.Name(id=parg.arg, ctx=ast.Store())], value=ctor)
+        at = 1 if fn.body and isinstance(fn.body[0], ast.Expr) and isinstance(fn.body[0].value, ast.Constant) and isinstance(fn.body[0].value.value, str) else 0
+        fn.body.insert(at, ast.copy_location(pro, fn))
+        count += 1
+    if count:
+        ast.fix_missing_locations(tree)
+    return count
+
+
+def normalise(tree: ast.Module, baseline_classes=frozenset(), short: str = "") -> int:
     """rewrites tree in place, returns the number of rewrites"""
     n8 = _N8()
     n8.visit(tree)
     ast.fix_missing_locations(tree)
+    n9 = _take_apart_parameter_objects(tree, baseline_classes, short) if short else 0
+    n8.count += n9
     st = _Stmts()
     tree.body = st._list(tree.body)
     n1 = _N1()
